@@ -252,6 +252,58 @@ def moving_bar_roundtrip(part, ta, tb):
                                {"used": (base_used, quote_used, liq), "got_back": (base_get, quote_get)})
 
 
+def reprice_same_bar(part, ta, tb):
+    """The status of ONE timestamp is set twice with different pool prices (a what-if inside a bar, a corrected row): deposits and withdrawals after the
+    second status use the second price - differential against a fresh market that only ever saw the second status."""
+    import datetime
+
+    import pandas as pd
+    from demeter import Broker, MarketInfo, TokenInfo
+    from demeter.uniswap import UniLpMarket, UniV3Pool, UniswapMarketStatus
+
+    if not (-800000 < ta < tb < 800000) or tb - ta < 40:
+        return
+    ts = datetime.datetime(2024, 1, 1, 0, 5)
+    for q0 in (True, False):
+        t0, t1 = TokenInfo("T0", 6), TokenInfo("T1", 18)
+        pool = UniV3Pool(t0, t1, 0.05, t0 if q0 else t1)
+        for first, second in (("inside", "above"), ("above", "inside"), ("below", "above")):
+            tick_of = {"inside": (ta + tb) // 2, "below": ta - 50, "above": tb + 50}
+            results = []
+            for two_statuses in (True, False):
+                broker = Broker()
+                market = UniLpMarket(MarketInfo("m"), pool)
+                broker.add_market(market)
+                broker.set_balance(t0, Decimal(10**6))
+                broker.set_balance(t1, Decimal(10**3))
+
+                def status(where):
+                    tk = tick_of[where]
+                    market.set_market_status(UniswapMarketStatus(ts, pd.Series(
+                        data=[0, 0, 10**20, tk, market.tick_to_price(tk)], index=["inAmount0", "inAmount1", "currentLiquidity", "closeTick", "price"])), None)
+                try:
+                    if two_statuses:
+                        status(first)
+                        market.get_market_balance()                  # something looks at the market under the first price
+                        market.add_liquidity_by_tick(ta, tb, Decimal(1), Decimal(1), trim_tick=False)
+                        market.remove_all_liquidity() if hasattr(market, "remove_all_liquidity") else None
+                        broker.set_balance(t0, Decimal(10**6))
+                        broker.set_balance(t1, Decimal(10**3))
+                    status(second)
+                    pos, bu, qu, liq = market.add_liquidity_by_tick(ta, tb, Decimal(3), Decimal(3), trim_tick=False)
+                    back = market.remove_liquidity(pos, collect=False)
+                    results.append((bu, qu, liq, tuple(back)))
+                except Exception as e:  # noqa: BLE001
+                    results.append(("raised", type(e).__name__, str(e)[:80]))
+            part.count("evaluations")
+            part.count("same_bar_reprices")
+            if results[0] != results[1]:
+                part.violation("C07|market|same-bar-reprice", "after the status of a bar has been set again with another pool price, a deposit / withdrawal differs from "
+                               "the same deposit on a market that only saw the second status", {"lower": ta, "upper": tb, "kind": "same-bar-reprice", "q0": q0,
+                                                                                                "first": first, "second": second},
+                               {"after_two_statuses": [str(x) for x in results[0]], "fresh_market": [str(x) for x in results[1]]})
+
+
 def argument_forms(part, ta, tb):
     """The same deposit through the market's other argument forms: price given as an explicit `tick=` that is NOT a multiple of the spacing (with the
     default trim_tick), range given as prices (add_liquidity), offers of exactly 0 for either token while the wallet holds plenty. Expected amounts
@@ -337,6 +389,7 @@ def work(args):
         check_pair(part, ta, tb)
         moving_bar_roundtrip(part, ta, tb)
         argument_forms(part, ta, tb)
+        reprice_same_bar(part, ta, tb)
     return part.result()
 
 
@@ -373,6 +426,7 @@ def replay(run: Run, path):
     check_pair(part, c["lower"], c["upper"])
     moving_bar_roundtrip(part, c["lower"], c["upper"])
     argument_forms(part, c["lower"], c["upper"])
+    reprice_same_bar(part, c["lower"], c["upper"])
     hit = {s: v for s, v in part.violations.items() if s == data["signature"]}
     for sig, v in (hit or part.violations).items():
         print("reproduced:", sig, v[0], v[1], v[2])
